@@ -160,6 +160,12 @@ type run struct {
 	// fault plan
 	faulty    bool
 	faultAt   int
+	// cancellation plan: the first import's context is cancelled before the
+	// call (cancelAt 0) or just before its cancelAt-th store write step.
+	cancelPlan bool
+	cancelAt   int
+	cancelArm  bool
+	ctxCancel  context.CancelFunc
 	short     bool
 	shortK    int
 	armed     bool
@@ -245,11 +251,21 @@ func (r *run) doImport(stage string) (err error) {
 	if nerr != nil {
 		r.rc.Infra("NewHeadersImport: %v", nerr)
 	}
+	ctx, cancel := context.WithCancel(context.Background())
+	defer cancel()
+	if r.cancelArm {
+		r.ctxCancel = cancel
+		if r.cancelAt == 0 {
+			r.firedKind = "cancel.before"
+			cancel()
+		}
+	}
 	var panicked any
 	func() {
 		defer func() { panicked = recover() }()
-		_, err = imp.Import(context.Background())
+		_, err = imp.Import(ctx)
 	}()
+	r.ctxCancel = nil
 	if panicked != nil {
 		r.rc.Failf("import-panicked", r.facts("panic"), "%s import panicked: %v", stage, panicked)
 	}
@@ -262,6 +278,7 @@ func errClass(err error) string {
 	}
 	s := err.Error()
 	for _, c := range []struct{ sub, name string }{
+		{"context canceled", "cancelled"},
 		{"failed to rollback", "write-failed-rollback-failed"},
 		{"failed to write filter headers", "filter-write-failed"},
 		{"failed to write block headers", "block-write-failed"},
@@ -587,6 +604,12 @@ func RunC14(t *testing.T, rc *core.RunCtx) {
 		r.short = tp.Chance(1, 2)
 		r.shortK = tp.Intn(80)
 	}
+	if !r.faulty && tp.Chance(1, 4) {
+		r.cancelPlan = true
+		if !tp.Chance(1, 2) {
+			r.cancelAt = 1 + tp.Intn(max(steps, 1))
+		}
+	}
 
 	// ---- build the world ----
 	r.p = chainmodel.NewParams(chainmodel.ParamOpts{RetargetInterval: retarget,
@@ -738,9 +761,9 @@ func RunC14(t *testing.T, rc *core.RunCtx) {
 			batchRel = "remainder"
 		}
 	}
-	rc.Logf("case: stores block tip %d filter tip %d; file heights %d-%d (start %s); batch size %d (%s); anomaly %s %s; fault plan faulty=%v at step %d short=%v; retarget=%d mindiff=%v vfloor=%d",
+	rc.Logf("case: stores block tip %d filter tip %d; file heights %d-%d (start %s); batch size %d (%s); anomaly %s %s; fault plan faulty=%v at step %d short=%v cancel=%v at %d; retarget=%d mindiff=%v vfloor=%d",
 		r.B, r.F, r.s, r.e, startKind, r.bs, batchRel, anomalyNames[r.anomaly], r.anomalyDetail,
-		r.faulty, r.faultAt, r.short, retarget, minDiff, vfloor)
+		r.faulty, r.faultAt, r.short, r.cancelPlan, r.cancelAt, retarget, minDiff, vfloor)
 	rc.Res.Sample = map[string]any{"block_tip": r.B, "filter_tip": r.F, "file_start": r.s, "file_end": r.e,
 		"batch": r.bs, "anomaly": anomalyNames[r.anomaly], "faulty": r.faulty}
 	rc.Probe("start_" + startKind)
@@ -763,6 +786,10 @@ func RunC14(t *testing.T, rc *core.RunCtx) {
 	// ---- first import, possibly with one injected write failure ----
 	r.disk.Decide = func(kind, file string, n int) int {
 		r.opp++
+		if r.cancelArm && r.ctxCancel != nil && r.cancelAt > 0 && r.opp == r.cancelAt {
+			r.firedKind = "cancel.at-write"
+			r.ctxCancel()
+		}
 		if !r.armed || r.opp != r.faultAt {
 			return 0
 		}
@@ -774,8 +801,10 @@ func RunC14(t *testing.T, rc *core.RunCtx) {
 		return 1
 	}
 	r.armed = r.faulty
+	r.cancelArm = r.cancelPlan
 	err1 := r.doImport("first")
 	r.armed = false
+	r.cancelArm = false
 	rc.Res.Steps++
 	cls := errClass(err1)
 	rc.Logf("first import: %v (class %s; write steps seen %d, fault fired: %q)", err1, cls, r.opp, r.firedKind)
